@@ -95,6 +95,14 @@ def exec_monitor(run):
                 if sts[o] != Cc:
                     yield f'tick {t}: completed operator {o} changed state to {OST[sts[o]].value}'
             done |= {i for i, x in enumerate(sts) if x == Cc}
+        if e.get('pre_states'):
+            # between the end of the previous tick and the moment the executor is entered only Assignment constructors
+            # ran: every change is a claim PENDING/FAILED -> ASSIGNED (whether or not the batch is refused afterwards)
+            before_ = run.trace[t - 1]['states'] if t > 0 else [P] * len(e['pre_states'])
+            for o, (x0, x1) in enumerate(zip(before_, e['pre_states'])):
+                if x0 != x1 and not (x0 in (P, F) and x1 == A):
+                    yield (f'tick {t}: building the assignments moved operator {o} from {OST[x0].value} to {OST[x1].value}: '
+                           f'a claim is only possible from pending or failed, anything else must be refused')
         if e['err']:
             # a refused command: the only state changes allowed are the claims PENDING/FAILED -> ASSIGNED made by the
             # Assignment objects of the batch before the refusal (and, when the executor had started, documented moves);
@@ -223,7 +231,8 @@ def run(ctx):
         dist['random_histories'] += 1
     ex = EP.run_property(ctx, EXEC_MASK, exec_monitor, 'lifecycle', [
         ('G-exec', 150, 3000, dict(p_bad=0.5)),
-        ('G-exec-reassign', 80, 1500, dict(p_bad=1.0, bad_kinds=['asg-busy', 'asg-busy', 'asg-order', 'asg-parent', 'asg-dup-op', 'asg-dup-op'])),
+        ('G-exec-reassign', 80, 1500, dict(p_bad=1.0, bad_kinds=['asg-busy', 'asg-busy', 'asg-order', 'asg-parent', 'asg-dup-op', 'asg-dup-op',
+                                                                 'asg-resume-suspending', 'asg-resume-suspending'])),
         ('G-exec-twins', 30, 500, dict(twins=True)),
         ('G-exec-overlap', 30, 500, dict(overlap=True)),
         ('G-exec-inflight', 80, 1500, dict(p_inflight=0.9, p_bad=0.0)),
